@@ -31,6 +31,7 @@ import (
 	"github.com/VKCOM/tl/pkg/rpc"
 
 	"github.com/VKCOM/statshouse/internal/agent"
+	"github.com/VKCOM/statshouse/internal/compress"
 	"github.com/VKCOM/statshouse/internal/data_model"
 	"github.com/VKCOM/statshouse/internal/data_model/gen2/tl"
 	"github.com/VKCOM/statshouse/internal/data_model/gen2/tlstatshouse"
@@ -70,6 +71,7 @@ type w1Config struct {
 	faultsStop    int  // second of the run at which faults stop
 	spareScenario bool // the only fault is one replica being down for a while
 	spareReplica  int
+	gracefulStops bool // agents are also stopped the way the agent's main() does on SIGINT and restarted on their disk cache (not a fault)
 	handlerPause  int  // 0: handlers run through; 1: handlers of selected historic requests pause between two rows (w1_pause_test.go); 2: same, and every insert takes a few milliseconds
 	chLatency     bool // every ClickHouse insert takes 1-50 ms of fake time (not a fault)
 }
@@ -98,6 +100,8 @@ type w1Inst struct {
 	dead  atomic.Bool
 	calls map[*w1Call]struct{} // outstanding client calls, under w.mu
 	meta  *metajournal.MetricsStorage
+
+	sendsDisabled, flusherStopped, preprocStopped bool // steps of the agent's own shutdown sequence already performed (graceful stop)
 
 	killedAt  time.Time
 	reaped    bool
@@ -137,6 +141,7 @@ type w1World struct {
 	pauseArmed atomic.Int32
 
 	lastWork []uint32 // per agent: last second the workload was applied for
+	graceful int      // graceful agent stops performed so far
 	zombies  []*w1Inst
 	allInsts []*w1Inst
 	clients  []*w1Client
@@ -334,6 +339,11 @@ func w1Run(t *testing.T, r *verifsim.Run) {
 		defer verifhook.SetOnPoint(nil)
 	}
 	r.Config["handler_pause"], r.Config["insert_latency"] = cfg.handlerPause, cfg.chLatency
+	// graceful agent restarts (SIGINT sequence of cmd/statshouse, then a new process on the same disk cache):
+	// not a fault, drawn independently; not in the single-replica-outage scenario, whose agents must keep
+	// their view of the replicas
+	cfg.gracefulStops = c.Intn(2, "graceful_agent_stops") == 1 && !cfg.spareScenario
+	r.Config["graceful_agent_stops"] = cfg.gracefulStops
 	r.Config["agents"], r.Config["run_len_s"], r.Config["historic_window_s"] = cfg.agents, cfg.runLen, cfg.window
 	r.Config["short_window"], r.Config["inserters"], r.Config["save_immediately"] = cfg.shortWindow, cfg.inserters, cfg.saveImm
 	r.Config["receive_budget"], r.Config["keys"], r.Config["faulty"] = cfg.receiveBudget, cfg.keys, cfg.faulty
@@ -403,8 +413,15 @@ func w1Run(t *testing.T, r *verifsim.Run) {
 		act := 0
 		if !stopped {
 			act = c.Intn(12, "act")
+		} else if cfg.gracefulStops && c.Intn(25, "graceful_act") == 1 {
+			act = 7 // also in fault-free runs and after faults_stop: a restart is not a fault
 		}
 		switch {
+		case act == 7 && cfg.gracefulStops:
+			w.actAgentGraceful()
+			if r.Failed() {
+				return
+			}
 		case act == 8 && cfg.partitions:
 			w.actPartition()
 		case act == 9 && cfg.partitions:
@@ -485,6 +502,8 @@ func (w *w1World) startAgent(a int, fromDir string) {
 
 // killAgent stops an agent process hard. Nothing of its memory survives; goroutines that would
 // loop forever are led into the fenced client where they terminate.
+// (A gracefully stopping process arrives here at the end of its own shutdown sequence, or in the middle of
+// it when the run is wound down early: the steps it already performed are not repeated.)
 func (w *w1World) killAgent(inst *w1Inst) {
 	inst.dead.Store(true)
 	w.mu.Lock()
@@ -499,14 +518,23 @@ func (w *w1World) killAgent(inst *w1Inst) {
 		call.conn.clientGone() // the connection went away with the process
 		w.finish(call, w1Result{err: rpc.ErrClientClosed})
 	}
-	inst.ag.ShutdownFlusher()
-	inst.ag.WaitFlusher()
+	if !inst.flusherStopped {
+		inst.flusherStopped = true
+		inst.ag.ShutdownFlusher()
+		inst.ag.WaitFlusher()
+	}
 	// historic senders reach the fenced client (and end there) only through a replica they believe alive
 	agent.VerifW1SetAllAlive(inst.ag, true)
 	agent.VerifW1WakeHistoricSenders(inst.ag, uint32(time.Now().Unix()), data_model.MaxHistorySendStreams+8)
-	inst.ag.DisableNewSends()
-	for _, s := range inst.ag.Shards {
-		s.StopPreprocessor()
+	if !inst.sendsDisabled {
+		inst.sendsDisabled = true
+		inst.ag.DisableNewSends()
+	}
+	if !inst.preprocStopped {
+		inst.preprocStopped = true
+		for _, s := range inst.ag.Shards {
+			s.StopPreprocessor()
+		}
 	}
 	verifsim.Wait()
 	if os.Getenv("VERIF_W1_DEBUG") != "" {
@@ -624,7 +652,15 @@ func (w *w1World) applySecond(inst *w1Inst, E uint32) {
 		apply(w1MetricMarker, X, w1Layout{vals: [5]string{1: strconv.Itoa(a + 1)}}, func(m *tlstatshouse.MetricBytes) { m.SetCounter(1) })
 		w.noteMarkerGen(a, X, inst.gen)
 	}
-	if gen, ok := w.or.marker[w1AT{a, E}]; !ok || gen != inst.gen { // not yet put there together with an early event
+	// A second this agent's gracefully stopped predecessor saved to the disk cache (it held future-dated
+	// events then) belongs to the predecessor's bucket, which this process sends through the historic
+	// conveyor: this process gets no marker and no events for that second (its own bucket of the second
+	// carries the agent's built-in rows only).
+	handedOver := false
+	if gen, ok := w.or.marker[w1AT{a, E}]; ok && gen != inst.gen && w.or.handedOver[w1AT{a, E}] {
+		handedOver = true
+		w.r.Probe("second_of_gracefully_stopped_predecessor_left_to_its_saved_bucket")
+	} else if !ok || gen != inst.gen { // not yet put there together with an early event
 		marker(E)
 	}
 	// the agent's own clock (white-box, read at quiescence): an event stamped older than sendTime joins
@@ -645,6 +681,9 @@ func (w *w1World) applySecond(inst *w1Inst, E uint32) {
 			if d := int(w.c.Keyed(7, 7004, uint64(a), uint64(X), uint64(k), uint64(l))) - 3; int64(X) != int64(E)+int64(d) {
 				return // reported in another second
 			}
+		}
+		if X == E && handedOver {
+			return
 		}
 		if X != E {
 			if X > curTime+3 {
@@ -700,6 +739,16 @@ func (w *w1World) applySecond(inst *w1Inst, E uint32) {
 					add(X, k, l)
 				}
 			}
+		}
+	}
+	// one row of the low-resolution metric in about half of the seconds (runs with graceful agent stops):
+	// the agent keeps it in a bucket up to a minute ahead of its clock
+	if w.cfg.gracefulStops && w.c.Keyed(2, 7005, uint64(a), uint64(E)) == 1 {
+		k := w1SlowKey{a, int32(E-w.or.startUnix) + 1}
+		if _, ok := w.or.slow[k]; !ok {
+			apply(w1MetricSlow, E, w1Layout{vals: [5]string{1: strconv.Itoa(a + 1), 4: strconv.Itoa(int(k.seq))}}, func(m *tlstatshouse.MetricBytes) { m.SetCounter(1) })
+			w.or.slow[k] = 0
+			w.r.Extra["low_resolution_rows_sent"]++
 		}
 	}
 	for i := len(combos) - 1; i > 0; i-- {
@@ -885,6 +934,81 @@ func (w *w1World) actAgent() {
 	w.r.Event("sched", "restart agent%d as g%d on its disk cache", a, w.instGen[a])
 }
 
+// actAgentGraceful stops an agent the way main() of cmd/statshouse does on SIGINT (same calls, same
+// order) and starts a new process on the same disk cache directory:
+//  1. DisableNewSends           (recent conveyor closed: every later second goes to disk + historic queue)
+//  2. WaitRecentSenders(10 s)   (data_model.InsertDelay; receivers still open: the workload goes on)
+//  3. ShutdownFlusher           (receivers closed), WaitFlusher
+//  4. FlushAllData              (everything left in the receive queue, including not-yet-due seconds,
+//     through the preprocessor to the disk cache), WaitPreprocessor
+//  5. exit                      (whatever is still in flight dies with the process)
+//
+// Steps 8-9 of main() (mappings cache, journal) have no counterpart here: mappings are empty, metric
+// metadata is built in. The shutdown-timings file (shutdown_info.go) is not written.
+func (w *w1World) actAgentGraceful() {
+	if w.graceful >= 3 {
+		return
+	}
+	a := w.c.Intn(w.cfg.agents, "graceful_agent")
+	inst := w.insts[a]
+	if inst == nil {
+		return
+	}
+	w.graceful++
+	w.r.Sched("graceful_stop", fmt.Sprintf("agent%d", a))
+	w.r.Extra["graceful_agent_stops"]++
+	w.r.Event("sched", "graceful stop of agent%d g%d begins", a, inst.gen)
+	ag := inst.ag
+	inst.sendsDisabled = true
+	ag.DisableNewSends()
+	done := make(chan struct{})
+	go func() {
+		defer w.guard("agent WaitRecentSenders")
+		ag.WaitRecentSenders(time.Second * data_model.InsertDelay)
+		close(done)
+	}()
+wait:
+	for i := 0; ; i++ {
+		verifsim.Wait()
+		w.observe()
+		if w.r.Failed() {
+			return
+		}
+		select {
+		case <-done:
+			break wait
+		default:
+		}
+		if i > 150 {
+			panic("w1 harness: WaitRecentSenders did not return within its own timeout")
+		}
+		w.applyWorkload() // receivers are open until step 3
+		w.r.Sched("time", "clock")
+		time.Sleep(100*time.Millisecond + time.Millisecond + time.Duration(1+i%89)*time.Microsecond)
+	}
+	inst.flusherStopped = true
+	ag.ShutdownFlusher()
+	ag.WaitFlusher()
+	inst.preprocStopped = true // FlushAllData closes the preprocessor's queue at its end
+	w.r.Extra["graceful_stop_buckets_flushed"] += ag.FlushAllData()
+	ag.WaitPreprocessor()
+	verifsim.Wait()
+	w.observe()
+	if w.r.Failed() {
+		return
+	}
+	img := filepath.Join(w.dir, fmt.Sprintf("agent%d-image", a))
+	w1CopyDir(inst.dir, img)
+	w.or.agentStoppedGracefully(w, inst, img)
+	if w.r.Failed() {
+		return
+	}
+	w.r.Event("sched", "graceful stop of agent%d g%d done, process exits", a, inst.gen)
+	w.killAgent(inst)
+	w.startAgent(a, img)
+	w.r.Event("sched", "restart agent%d as g%d on its disk cache", a, w.instGen[a])
+}
+
 func (w *w1World) faultsStop() {
 	w.r.Sched("faults_stop", "sched")
 	w.mu.Lock()
@@ -983,8 +1107,8 @@ func w1CopyDir(from, to string) {
 	}
 }
 
-// w1DiskSeconds lists the seconds the agent's own disk-cache reader finds in a directory (a copy is
-// read, never the live directory).
+// w1DiskSeconds lists the seconds the agent's own disk-cache reader finds in a directory with a bucket
+// that carries a marker row (a copy is read, never the live directory).
 func w1DiskSeconds(dir string, scratch string) []uint32 {
 	w1CopyDir(dir, scratch)
 	defer os.RemoveAll(scratch)
@@ -993,14 +1117,47 @@ func w1DiskSeconds(dir string, scratch string) []uint32 {
 		panic(fmt.Sprintf("w1 harness: reading disk cache copy: %v", err))
 	}
 	defer d.Close()
+	// Only buckets that carry a marker row count: with low-resolution rows an agent process can leave a
+	// marker-less bucket of a future second on disk, and its successor then builds the second's marker
+	// bucket of its own. "Second T is on disk" must mean the bucket the oracles follow.
 	var out []uint32
+	var scratchPad []byte
 	for {
 		sec, id := d.ReadNextTailBucket(0)
 		if id == 0 {
 			break
 		}
-		out = append(out, sec)
+		data, err := d.GetBucket(0, id, sec, &scratchPad)
+		if err != nil {
+			panic(fmt.Sprintf("w1 harness: reading bucket %d of the disk cache copy: %v", sec, err))
+		}
+		if w1FramedBucketHasMarker(data) {
+			out = append(out, sec)
+		}
 	}
 	sort.Slice(out, func(i, j int) bool { return out[i] < out[j] })
 	return out
+}
+
+// w1FramedBucketHasMarker decodes a bucket as the disk cache stores it (the repository's framing,
+// decompressor and generated TL reader).
+func w1FramedBucketHasMarker(data []byte) bool {
+	originalSize, compressed, err := compress.DeFrame(data)
+	if err != nil {
+		panic(fmt.Sprintf("w1 harness: disk cache bucket does not deframe: %v", err))
+	}
+	raw, err := compress.Decompress(originalSize, compressed)
+	if err != nil {
+		panic(fmt.Sprintf("w1 harness: disk cache bucket does not decompress: %v", err))
+	}
+	var b tlstatshouse.SourceBucket3Bytes
+	if _, err := b.ReadTL1Boxed(raw); err != nil {
+		panic(fmt.Sprintf("w1 harness: disk cache bucket does not decode: %v", err))
+	}
+	for i := range b.Metrics {
+		if b.Metrics[i].Metric == w1MetricMarker {
+			return true
+		}
+	}
+	return false
 }
